@@ -29,10 +29,10 @@
 
 use barter::{
     Timed,
-    engine::state::position::PositionExited,
+    engine::state::{position::PositionExited, trading::TradingState},
     statistic::{
         metric::drawdown::{Drawdown, DrawdownGenerator, max::MaxDrawdownGenerator, mean::MeanDrawdownGenerator},
-        summary::{asset::TearSheetAssetGenerator, instrument::TearSheetGenerator},
+        summary::{TradingSummaryGenerator, asset::TearSheetAssetGenerator, instrument::TearSheetGenerator},
         time::Daily,
     },
 };
@@ -43,6 +43,8 @@ use barter_execution::{
 use barter_instrument::{
     Side,
     asset::{AssetIndex, QuoteAsset},
+    exchange::ExchangeId,
+    index::IndexedInstruments,
     instrument::InstrumentIndex,
 };
 use barter_integration::snapshot::Snapshot;
@@ -280,6 +282,10 @@ enum Path {
     /// as `Position`, but the exits' exchange times are not in arrival order (two venues with skewed
     /// clocks feed one tear sheet): a point's time is whatever its record says
     PositionUnordered,
+    /// the equity curve is one asset's balance inside a `TradingSummaryGenerator` that also tracks another
+    /// exchange's asset whose snapshots are stamped an hour AHEAD (each curve is in order; the streams of two
+    /// venues are not merged by time)
+    SummaryAssets,
 }
 
 const PATHS: [Path; 5] = [Path::Direct, Path::DirectInit, Path::AssetInit, Path::AssetDefault, Path::Position];
@@ -293,10 +299,11 @@ impl Path {
             Path::AssetDefault => "asset_default",
             Path::Position => "position",
             Path::PositionUnordered => "position_unordered_times",
+            Path::SummaryAssets => "summary_with_a_second_asset_running_ahead",
         }
     }
     fn parse(s: &str) -> Path {
-        *PATHS.iter().chain([Path::PositionUnordered].iter()).find(|p| p.name() == s).unwrap_or_else(|| panic!("unknown path {s}"))
+        *PATHS.iter().chain([Path::PositionUnordered, Path::SummaryAssets].iter()).find(|p| p.name() == s).unwrap_or_else(|| panic!("unknown path {s}"))
     }
 }
 
@@ -304,6 +311,7 @@ enum Sut {
     Direct { g: Option<DrawdownGenerator>, maxg: Option<MaxDrawdownGenerator>, meang: Option<MeanDrawdownGenerator>, init: bool },
     Asset { g: Option<TearSheetAssetGenerator>, init: bool },
     Position { g: Option<TearSheetGenerator>, prev: Decimal },
+    Summary { g: Box<TradingSummaryGenerator>, other: AssetIndex, k: i64 },
 }
 
 struct StepObs {
@@ -354,6 +362,14 @@ impl Sut {
             Path::AssetInit => Sut::Asset { g: None, init: true },
             Path::AssetDefault => Sut::Asset { g: None, init: false },
             Path::Position | Path::PositionUnordered => Sut::Position { g: None, prev: Decimal::ZERO },
+            Path::SummaryAssets => {
+                let ins = IndexedInstruments::new([vharness::fixtures::spot(ExchangeId::BinanceSpot, "btc", "usdt"), vharness::fixtures::spot(ExchangeId::Kraken, "eth", "usdt")]);
+                let state = vharness::fixtures::default_state(&ins, TradingState::Disabled);
+                let g = TradingSummaryGenerator::init(Decimal::ZERO, t(0), t(0), &state.instruments, &state.assets);
+                // the asset that runs ahead: the last asset index (another exchange than asset 0)
+                let other = AssetIndex(ins.assets().len() - 1);
+                Sut::Summary { g: Box::new(g), other, k: 0 }
+            }
         }
     }
 
@@ -412,6 +428,20 @@ impl Sut {
                     mean: tsg.drawdown_mean.generate().map(|m| (m.mean_drawdown, m.mean_drawdown_ms)),
                 }
             }
+            Sut::Summary { g, other, k } => {
+                // the other venue's balance first, stamped an hour ahead of this point (its own curve is in order)
+                *k += 1;
+                let ahead = AssetBalance { asset: *other, balance: Balance::new(d(1000 + (*k % 7) * 10), d(1000)), time_exchange: t(p.t + 3_600_000 + *k) };
+                g.update_from_balance(Snapshot(&ahead));
+                g.update_from_balance(Snapshot(&asset_balance(p)));
+                let tsg = g.assets.get_index_mut(0).expect("asset 0").1;
+                StepObs {
+                    emitted: None,
+                    current: tsg.drawdown.generate().as_ref().map(DD::of),
+                    max: tsg.drawdown_max.generate().map(|m| DD::of(&m.0)),
+                    mean: tsg.drawdown_mean.generate().map(|m| (m.mean_drawdown, m.mean_drawdown_ms)),
+                }
+            }
             Sut::Position { g, prev } => {
                 let tsg = g.get_or_insert_with(|| TearSheetGenerator::init(t(p.t - 60_000)));
                 let position: PositionExited<QuoteAsset, InstrumentIndex> = PositionExited {
@@ -463,6 +493,16 @@ impl Sut {
                     current: sheet.drawdown.as_ref().map(DD::of),
                     max: sheet.drawdown_max.map(|m| DD::of(&m.0)),
                     mean: sheet.drawdown_mean.map(|m| (m.mean_drawdown, m.mean_drawdown_ms)),
+                    last_value: sheet.balance_end.map(|b| b.total),
+                }
+            }
+            Sut::Summary { g, .. } => {
+                let summary = g.generate(Daily);
+                let sheet = summary.assets.get_index(0).expect("asset 0").1;
+                FinalObs {
+                    current: sheet.drawdown.as_ref().map(DD::of),
+                    max: sheet.drawdown_max.as_ref().map(|m| DD::of(&m.0)),
+                    mean: sheet.drawdown_mean.as_ref().map(|m| (m.mean_drawdown, m.mean_drawdown_ms)),
                     last_value: sheet.balance_end.map(|b| b.total),
                 }
             }
@@ -929,6 +969,9 @@ fn main() {
             for path in [direct, asset, Path::Position] {
                 execute(path, class, &pts, &format!("r{w}-{i}-{}", path.name()), report, do_log.then_some(&log));
             }
+            if i % 3 == 0 {
+                execute(Path::SummaryAssets, class, &pts, &format!("r{w}-{i}-summary"), report, None);
+            }
             // the same curve with every second point stamped by a venue whose clock lags 90 s (never logged
             // for the offline oracle, which assumes arrival order = time order)
             if i % 4 == 0 {
@@ -949,6 +992,7 @@ fn main() {
     }
     if !small {
         report.require("path:position_unordered_times");
+        report.require("path:summary_with_a_second_asset_running_ahead");
     }
     for c in CLASSES {
         report.require(&format!("class:{c}"));
